@@ -8,9 +8,9 @@ Require Import ZV.gen.KernelGen ZV.Kernel ZV.Bytes.
 Import ListNotations.
 Open Scope N_scope.
 Ltac Zify.zify_post_hook ::= Z.div_mod_to_equations.
-Ltac trefl := timeout 30 reflexivity.
-Ltac tlia := timeout 60 lia.
-Ltac tnia := timeout 60 nia.
+Ltac trefl := timeout 240 reflexivity.
+Ltac tlia := timeout 240 lia.
+Ltac tnia := timeout 240 nia.
 
 Lemma tie_constants :
   go_Version = 16 /\ go_FooterSize = 52 /\ go_fieldNotUninverted = 2 ^ 64 - 1 /\ go_termNotEncoded = 0 /\
@@ -18,5 +18,5 @@ Lemma tie_constants :
   go_FSTValEncodingMask = 13835058055282163712 /\ go_FSTValEncodingGeneral = 0 /\
   go_DocNum1HitFinished = 2 ^ 64 - 1 /\ go_LegacyChunkMode = 1024 /\ go_DefaultChunkMode = 1026 /\
   go_termSeparator = 255 /\ go_SectionInvertedTextIndex = 0 /\ go_SectionFaissVectorIndex = 1 /\ go_SectionSynonymIndex = 2.
-Proof. timeout 30 (repeat split; reflexivity). Qed.
+Proof. timeout 240 (repeat split; reflexivity). Qed.
 Print Assumptions tie_constants.
